@@ -308,7 +308,9 @@ def c07(ck):
                          exhaustive=True, nontrivial=lambda c, o: "toks=-" not in o))
     # 2. random long lines
     n = 20000 if thorough else 3000
-    rl = sorted(set(gen.hx(gen.rand_line(rng, 40)) for _ in range(n)))
+    rl = sorted(set([gen.hx(gen.rand_line(rng, 40)) for _ in range(n)] +
+                    # lines, token positions and token counts beyond 255
+                    [gen.hx(b"ab " * 90 + gen.rand_line(rng, 300)) for _ in range(12)] + [gen.hx(b"a " * 300), gen.hx(b'"" ' * 130 + b"x"), gen.hx(b'"' + b"a b" * 100 + b'" y')]))
     spec.update(zip(rl, drv_run("tokspec", rl)))
     ck.run_family(Family("tok-random", "tok", rl, project=proj, oracle=oracle_tok, shrink=core.shrink_hex_line,
                          nontrivial=lambda c, o: "," in o))
@@ -381,6 +383,9 @@ def c08(ck):
                 for _ in range(rng.randrange(0, 7))]
         name = rng.choice([b"c", b"help", b"get", "é".encode()])
         lines.append(gen.hx(gen.cmd_line(name, toks)))
+    # more than 255 arguments, a cluster of more than 255 characters, names longer than 255 bytes, `--` after the 256th token
+    lines += [gen.hx(gen.cmd_line(b"c", [b"-a", b"v"] * 140 + [b"--", b"-x"])), gen.hx(gen.cmd_line(b"c", [b"-" + "a\u00e9".encode() * 140, b"--" + b"n" * 300, b"v" * 300])),
+              gen.hx(gen.cmd_line(b"c", [b"x"] * 256 + [b"--", b"--y", b"-z"]))]
     lines = sorted(set(lines))
     spec = dict(zip(lines, drv_run("argspec", lines)))
 
@@ -404,6 +409,9 @@ def c13(ck):
     n = 30000 if thorough else 5000
     cases = ["-", "s:.", "l:.", "s:0a", "l:0a", "s:0d0a", "s:610d;s:0a", "s:61;s:0d0a", "l:610a62", "s:0d;s:0a62", "s:61;s:.", "u:610a", "f:62"]
     cases += [gen.rand_writer_ops(rng) for _ in range(n)]
+    # texts and line counts beyond 255: one write of 300 bytes with line feeds after position 256, 300 short lines, a 300-byte line per call
+    cases += ["s:" + gen.hx(b"a" * 256 + b"\n" + b"b" * 10 + b"\n"), "s:" + gen.hx(b"x\n" * 300), "l:" + gen.hx(b"y" * 300) + ";s:" + gen.hx("\u00e9".encode() * 200),
+              "s:" + gen.hx(b"a" * 255) + ";s:0a", "u:" + gen.hx(b"z" * 257 + b"\n" + b"z")]
     cases = sorted(set(cases))
     spec = dict(zip(cases, drv_run("wrspec", cases)))
     # the property is about what the terminal shows (own lines, fresh line for the prompt, line and cursor redisplayed): the frame the
@@ -492,6 +500,7 @@ def c05(ck):
     n = 20000 if thorough else 3000
     for _ in range(n):
         cases.append("%d %s" % (rng.choice([0, 1, 2, 3, 4, 5, 6, 7, 8, 9, 12, 16]), ";".join(gen.rand_ed_ops(rng, rng.randrange(1, 40)))))
+    cases += gen.long_ed_cases(rng, 40 if thorough else 12)          # lines, cursors and buffers beyond 255
     spec = dict(zip(cases, drv_run("edspec", cases)))
 
     def oracle(case, io):
@@ -563,6 +572,7 @@ def c10(ck):
     n = 20000 if thorough else 4000
     for _ in range(n):
         cases.append("%d %s" % (rng.choice([0, 1, 2, 3, 4, 5, 6, 7, 8, 9, 10, 12, 16, 24]), ";".join(gen.rand_hist_ops(rng, rng.randrange(1, 40)))))
+    cases += gen.long_hist_cases(rng, 40 if thorough else 12)        # entries and buffers beyond 255 bytes
     spec = dict(zip(cases, drv_run("histspec", cases)))
 
     def oracle(case, io):
@@ -782,6 +792,7 @@ def c06(ck):
             ops.append(rng.choice(["b:" + gen.hx(gen.KEYS["up"]), "b:" + gen.hx(gen.KEYS["up"]), "b:" + gen.hx(gen.KEYS["down"]), "b:" + gen.hx(gen.KEYS["left"]),
                                    "b:58", "b:" + gen.hx(gen.KEYS["bs"]), "w:s6f", "p:%d" % rng.randrange(4)]))
         ses.append("%d %d %d raw %s" % (rng.choice([8, 16, 32]), rng.choice([0, 8, 16, 32, 64]), rng.randrange(4), ";".join(ops)))
+    ses += gen.long_sessions(rng, 8 if thorough else 3)        # a row of more than 255 columns, the cursor taken back over column 256
     ses = list(dict.fromkeys(ses))
     try:
         hb = ck.binaries("hac", "debug")
@@ -1090,6 +1101,7 @@ def c01(ck):
     thorough = ck.tier == "thorough"
     n = 10000 if thorough else 5000
     ses = [gen.rand_session(rng, rng.choice([15, 40]), api=False) for _ in range(n)]
+    ses += gen.long_sessions(rng, 12 if thorough else 4, api=False)        # a line, a cursor, a history entry beyond 255
 
     def proj(o):
         st = parse_steps(o)
@@ -1138,6 +1150,7 @@ def c03(ck):
         hcap = rng.randrange(0, 65) if i % 5 else rng.choice([0, 1, 2, 3, 4])
         ops = gen.rand_session_ops(rng, rng.choice([20, 60]), api=True, malformed=True)
         ses.append("%d %d %d raw %s" % (cap, hcap, rng.randrange(4), ";".join(ops)))
+    ses += gen.long_sessions(rng, 12 if thorough else 4)        # sizes beyond 255: a narrower integer than usize somewhere overflows only there
 
     def oracle(case, io):
         st = parse_steps(io)
